@@ -199,6 +199,11 @@ Section Hs.
     (* ECDH with a fixed secret separates public keys; HKDF separates inputs *)
     Hypothesis dh_inj : forall a P P', dh a P = dh a P' -> P = P'.
     Hypothesis hkdf_inj : forall s a b, snd (hkdf s (Some a)) = snd (hkdf s (Some b)) -> a = b.
+    (* Open(Seal p) = p; a 33-byte string parses to at most one point
+       (compressed encoding is canonical) *)
+    Hypothesis dec_enc : forall k n ad p, dec k n ad (enc k n ad p) = Some p.
+    Hypothesis parse_inj : forall (a b : list N) (P : PK),
+        length a = 33%nat -> length b = 33%nat -> parse a = Some P -> parse b = Some P -> a = b.
 
     (* RecvActOne/Two on [0 | ser e | tag']: accepted only if tag' is the Seal
        output under the receiver's own derived key and digest *)
@@ -243,6 +248,136 @@ Section Hs.
       apply hkdf_inj in H. exact H.
     Qed.
 
+
+    (* ---------------- act three ---------------- *)
+    Notation a3ct := (act3_ct K W SK PK enc hkdf mixc ser).
+    Notation a3tag := (act3_tag K W SK PK enc hkdf mixc dh ser).
+
+    Lemma enc_length_i : forall k n ad p, length (enc k n ad p) = (length p + 16)%nat.
+    Proof.
+      intros. pose proof (enc_len k n ad p) as H. unfold len, mac_size in H. lia.
+    Qed.
+
+    Lemma a3ct_length : forall (m : mach) P, length (a3ct m P) = 49%nat.
+    Proof.
+      intros m P. unfold act3_ct, encrypt_and_hash, cs_encrypt. cbn [fst].
+      rewrite enc_length_i, ser_len. reflexivity.
+    Qed.
+
+    Lemma eah_ck : forall (s : sst) p, ss_ck K (snd (eah s p)) = ss_ck K s.
+    Proof. intros s p. unfold encrypt_and_hash, cs_encrypt, mix_hash_c. reflexivity. Qed.
+
+    Lemma split_remote_static : forall (m : mach),
+        m_remote_static _ _ _ _ (splt m) = m_remote_static _ _ _ _ m.
+    Proof.
+      intros m. unfold split. destruct (hkdf (ss_ck K (m_sym _ _ _ _ m)) None) as [k1 k2].
+      destruct (m_initiator _ _ _ _ m); reflexivity.
+    Qed.
+
+    (* RecvActThree never reports anything but a MAC or a parse error on an
+       act with version byte 0 *)
+    Lemma recv3_err_class : forall (m : mach) le rest e,
+        m_local_eph _ _ _ _ m = Some le ->
+        rcv3 m (wb handshake_version :: rest) = Err e -> e = EMac \/ e = EParse.
+    Proof.
+      intros m le rest e Hle. unfold recv_act_three. rewrite version_ok_wb0. cbn [negb].
+      destruct (dah (m_sym _ _ _ _ m) (firstn 49 rest)) as [[pkb |] s1];
+        [| intros H; inversion H; auto].
+      destruct (parse pkb) as [rs |]; [| intros H; inversion H; auto].
+      rewrite Hle.
+      destruct (dah (mixk s1 (dh le rs)) (skipn 49 rest)) as [[p2 |] s3]; intros H; inversion H; auto.
+    Qed.
+
+    (* the ONLY act three a responder accepts is, byte for byte, the one an
+       honest initiator with some static key P computes from the same
+       transcript; P is the key the responder then records *)
+    Lemma recv3_accept_inv : forall (m : mach) le c' t' m',
+        m_local_eph _ _ _ _ m = Some le ->
+        length c' = 49%nat -> length t' = 16%nat ->
+        rcv3 m (wb handshake_version :: c' ++ t') = Ok m' ->
+        exists P, c' = a3ct m P /\ t' = a3tag m le P /\ m_remote_static _ _ _ _ m' = Some P.
+    Proof.
+      intros m le c' t' m' Hle Hc Ht. unfold recv_act_three.
+      rewrite version_ok_wb0. cbn [negb].
+      rewrite (firstn_app_len _ _ _ _ Hc), (skipn_app_len _ _ _ _ Hc).
+      unfold decrypt_and_hash at 1. unfold cs_decrypt.
+      set (s0 := m_sym _ _ _ _ m).
+      destruct (dec (cs_key (ss_cs K s0)) (cs_nonce (ss_cs K s0)) (Some (ss_h K s0)) c')
+        as [pkb |] eqn:Ed; [| discriminate].
+      apply ideal_aead in Ed.
+      assert (Hpkb : length pkb = 33%nat).
+      { pose proof (enc_length_i (cs_key (ss_cs K s0)) (cs_nonce (ss_cs K s0)) (Some (ss_h K s0)) pkb) as H.
+        rewrite <- Ed, Hc in H. lia. }
+      destruct (parse pkb) as [P |] eqn:Ep; [| discriminate].
+      rewrite Hle.
+      assert (Epk : pkb = ser P).
+      { apply (parse_inj pkb (ser P) P); auto. }
+      subst pkb.
+      assert (Ect : c' = a3ct m P).
+      { unfold act3_ct, encrypt_and_hash, cs_encrypt. cbn [fst]. exact Ed. }
+      assert (Es1 : mix_hash_c K W mixc
+                      (mkSS K (advance K hkdf (ss_cs K s0)) (ss_ck K s0) (ss_h K s0)) c'
+                    = snd (eah s0 (ser P))).
+      { unfold encrypt_and_hash, cs_encrypt. cbn [snd]. rewrite <- Ed. reflexivity. }
+      rewrite Es1.
+      set (s2 := mixk (snd (eah s0 (ser P))) (dh le P)).
+      unfold decrypt_and_hash, cs_decrypt.
+      destruct (dec (cs_key (ss_cs K s2)) (cs_nonce (ss_cs K s2)) (Some (ss_h K s2)) t')
+        as [p2 |] eqn:Ed2; [| discriminate].
+      apply ideal_aead in Ed2.
+      assert (Hp2 : p2 = []).
+      { pose proof (enc_length_i (cs_key (ss_cs K s2)) (cs_nonce (ss_cs K s2)) (Some (ss_h K s2)) p2) as H.
+        rewrite <- Ed2, Ht in H. destruct p2; [reflexivity | cbn in H; lia]. }
+      subst p2. intros H. inversion H; subst m'; clear H.
+      exists P. split; [exact Ect |]. split.
+      - unfold act3_tag. fold s0. fold s2. unfold encrypt_and_hash, cs_encrypt. cbn [fst]. exact Ed2.
+      - rewrite split_remote_static. reflexivity.
+    Qed.
+
+    (* the final MAC of act three changed in any way: refused *)
+    Lemma recv3_tag_changed : forall (m : mach) le P t',
+        m_local_eph _ _ _ _ m = Some le ->
+        length t' = 16%nat -> t' <> a3tag m le P ->
+        rcv3 m (wb handshake_version :: a3ct m P ++ t') = Err EMac.
+    Proof.
+      intros m le P t' Hle Ht Hne.
+      destruct (rcv3 m (wb handshake_version :: a3ct m P ++ t')) as [m' | e] eqn:Er.
+      - exfalso.
+        destruct (recv3_accept_inv m le _ _ m' Hle (a3ct_length m P) Ht Er) as (P' & Ec & Et & _).
+        (* same ciphertext => same plaintext => same key *)
+        unfold act3_ct, encrypt_and_hash, cs_encrypt in Ec. cbn [fst] in Ec.
+        assert (Es : Some (ser P) = Some (ser P')).
+        { rewrite <- (dec_enc (cs_key (ss_cs K (m_sym _ _ _ _ m))) (cs_nonce (ss_cs K (m_sym _ _ _ _ m)))
+                              (Some (ss_h K (m_sym _ _ _ _ m))) (ser P)).
+          rewrite Ec. apply dec_enc. }
+        inversion Es as [Es'].
+        assert (EP : Some P = Some P') by (rewrite <- (parse_ser P), Es'; apply parse_ser).
+        inversion EP; subst P'. contradiction.
+      - revert Er. unfold recv_act_three. rewrite version_ok_wb0. cbn [negb].
+        rewrite (firstn_app_len _ _ _ _ (a3ct_length m P)), (skipn_app_len _ _ _ _ (a3ct_length m P)).
+        unfold act3_ct. rewrite (dah_eah dec_enc). rewrite parse_ser, Hle.
+        destruct (dah _ t') as [[p2 |] s3]; intros H; inversion H; reflexivity.
+    Qed.
+
+    (* the encrypted static key of act three (49 bytes: ciphertext and its
+       MAC) changed in any way while the final MAC is kept: refused *)
+    Lemma recv3_ct_changed : forall (m : mach) le P c',
+        m_local_eph _ _ _ _ m = Some le ->
+        length c' = 49%nat -> c' <> a3ct m P ->
+        exists e, rcv3 m (wb handshake_version :: c' ++ a3tag m le P) = Err e /\
+                  (e = EMac \/ e = EParse).
+    Proof.
+      intros m le P c' Hle Hc Hne.
+      assert (Ht : length (a3tag m le P) = 16%nat).
+      { unfold act3_tag, encrypt_and_hash at 1, cs_encrypt. cbn [fst]. rewrite enc_length_i. reflexivity. }
+      destruct (rcv3 m (wb handshake_version :: c' ++ a3tag m le P)) as [m' | e] eqn:Er.
+      - exfalso.
+        destruct (recv3_accept_inv m le _ _ m' Hle Hc Ht Er) as (P' & Ec & Et & _).
+        unfold act3_tag in Et. apply eah_mixk_inj in Et; [| rewrite !eah_ck; reflexivity].
+        apply dh_inj in Et. subst P'. contradiction.
+      - exists e. split; [reflexivity |]. eapply recv3_err_class; eassumption.
+    Qed.
+
     Theorem handshake_rejects :
       (* (a) dialling any static key other than the responder's: act one is refused *)
       (forall ls rs ei target a1 i1,
@@ -275,7 +410,24 @@ Section Hs.
           m_local_eph _ _ _ _ m = Some le ->
           e' <> e ->
           tag = fst (eah (mixk (mixhb (m_sym _ _ _ _ m) (ser e)) (dh le e)) []) ->
-          rcv2 m (wb handshake_version :: map wb (ser e') ++ tag) = Err EMac).
+          rcv2 m (wb handshake_version :: map wb (ser e') ++ tag) = Err EMac) /\
+      (* (e) an accepted act three is byte for byte the honest one of the static key learnt *)
+      (forall (m : mach) le c' t' m',
+          m_local_eph _ _ _ _ m = Some le ->
+          length c' = 49%nat -> length t' = 16%nat ->
+          rcv3 m (wb handshake_version :: c' ++ t') = Ok m' ->
+          exists P, c' = a3ct m P /\ t' = a3tag m le P /\ m_remote_static _ _ _ _ m' = Some P) /\
+      (* (f) act three with the encrypted static key (ciphertext or its MAC) changed, final MAC kept *)
+      (forall (m : mach) le P c',
+          m_local_eph _ _ _ _ m = Some le ->
+          length c' = 49%nat -> c' <> a3ct m P ->
+          exists e, rcv3 m (wb handshake_version :: c' ++ a3tag m le P) = Err e /\
+                    (e = EMac \/ e = EParse)) /\
+      (* (g) act three with the final MAC changed *)
+      (forall (m : mach) le P t',
+          m_local_eph _ _ _ _ m = Some le ->
+          length t' = 16%nat -> t' <> a3tag m le P ->
+          rcv3 m (wb handshake_version :: a3ct m P ++ t') = Err EMac).
     Proof.
       assert (Hlen16 : forall (s : sst), length (fst (eah s [])) = 16%nat).
       { intros s. unfold encrypt_and_hash, cs_encrypt. cbn [fst].
@@ -293,7 +445,8 @@ Section Hs.
         unfold parse_w. rewrite unwrap_map_wb, parse_ser, Hk.
         destruct (dah _ tag') as [[p |] s3]; intros Hno; [| reflexivity].
         exfalso. eapply Hno. reflexivity. }
-      split; [| split; [exact version_rejected | split; [| split; [| split]]]].
+      split; [| split; [exact version_rejected | split; [| split; [| split; [| split; [|
+        split; [exact recv3_accept_inv | split; [exact recv3_ct_changed | exact recv3_tag_changed]]]]]]]].
       - (* (a) *)
         intros ls rs ei target a1 i1 Hne Hg.
         unfold gen_act_one in Hg. cbn [new_initiator m_remote_static m_sym] in Hg.
